@@ -136,6 +136,7 @@ class Builder:
         greps = [self.m(c, "service") for c in greeting]
         g = reaction(greps, close_after=(greeting[-1] == 421))
         stay_plain = sess_kw.pop("stay_plain", False)
+        tls_reset = sess_kw.pop("tls_reset", False)
         si = self.new_session(g, **sess_kw)
         cmds, reps = [], list(greps)
         ok = greeting[-1] < 400 and not (len(greeting) == 1 and False)
@@ -147,6 +148,8 @@ class Builder:
             reps.append(a)
             client_rejects = (self.cfg["verify"] == "unknown")
             rx = reaction([a], starttls=(auth < 400), tls_ok=tls_ok, stay_plain_after_bad_tls=stay_plain)
+            if tls_reset:
+                rx["tls_reset"] = True
             if client_rejects:
                 rx["model_tls_ok"] = False          # the peer does its part; the client refuses the certificate
             self.cur.append(rx)
@@ -308,6 +311,11 @@ class Builder:
                         data["model_tls_ok"] = False
                 elif data_fault == "handshake":
                     data["tls_ok"] = False
+                elif data_fault == "reset-before-handshake":
+                    # the server opens / accepts the data connection, resets it, and still answers the command positively:
+                    # the client finds a dead connection when it comes to its TLS handshake
+                    data["tls_ok"] = False
+                    data["reset_first"] = True
                 elif data_fault == "truncate":
                     data["end"] = "X"
                 elif data_fault == "unreachable-passive":
@@ -348,7 +356,7 @@ class Builder:
         else:
             call = ("F", path, names)
         self.cfg_type_at[ci] = self.type
-        faulty = (data_fault in ("handshake",) and self.tls and refuse_at is None) or \
+        faulty = (data_fault in ("handshake", "reset-before-handshake") and self.tls and refuse_at is None) or \
                  (data_fault == "rogue-cert" and self.tls and refuse_at is None and self.cfg["verify"] != "none") or \
                  (data_fault == "truncate" and self.tls and refuse_at is None and kind != "U") or \
                  (listen == "dead" and self.mode == "P" and refuse_at != "setup")
